@@ -6,6 +6,7 @@ CVS_STEP_T g_step_rel, g_step_abs; int g_sim_continuing, g_sim_running;
 int g_ret, g_f_cv_periodic, g_cv_periodic[3], g_cv_feat_other;
 double g_wdist; int g_nwd; int g_nuc, g_uc_lambda; int g_wl, g_wu, g_wdl, g_wdu;
 int g_cf_node[2], g_incr_node[2], g_acc_in, g_acc_out;
+int g_un[12], g_uo[4], g_nbu, g_bu_tn;
 size_t nondet_size_t(void); int nondet_int(void); double nondet_double(void); long long nondet_ll(void); _Bool nondet_bool(void);
 double k_floor(double x) { return x; } double k_sqrt(double x) { return x; } double k_pow(double x, double y) { return x; }
 
@@ -15,6 +16,11 @@ static void havoc_cv(void) { for (int k = 0; k < 3; k++) g_cv_periodic[k] = nond
 H3(harmonic_restraint_potential)
 H3(harmonic_restraint_force)
 H3(harmonic_d_restraint_potential_dk)
+H3(linear_restraint_potential)
+H3(linear_restraint_force)
+H3(linear_d_restraint_potential_dk)
+void h_restraint_update(void) { havoc_cv(); g_error_bits = 0; int r = k_restraint_update(); if (r == 0) __CPROVER_assert(0, "canary: restraint update returns"); }
+void h_update_centers_body(void) { havoc_cv(); g_error_bits = 0; int r = k_update_centers_body(); if (r == 0) __CPROVER_assert(0, "canary: update_centers returns"); }
 void h_walls_colvar_distance(void) { havoc_cv(); g_wl = nondet_int(); g_wu = nondet_int(); g_wdl = nondet_int(); g_wdu = nondet_int();
   int hl = nondet_int(), hu = nondet_int();
   double r = k_walls_colvar_distance(nondet_size_t(), nondet_double(), nondet_double(), hl, hu, nondet_bool());
